@@ -187,6 +187,19 @@ func (p c10) Gen(t *rapid.T, env *Env) (*Case, []*Out) {
 			}
 		}
 	}
+	{
+		crossPkgCombo := false
+		for _, f := range w.Files {
+			for _, r := range f.Refs {
+				if tf := w.File(r.ToTag); r.Combo != "" && tf != nil && tf.Pkg != f.Pkg {
+					crossPkgCombo = true
+				}
+			}
+		}
+		if crossPkgCombo && hasAnyOfRefBranch(w) {
+			meta.CrossPkgAnyOf = true
+		}
+	}
 	// arguments: the ordinary files (special shadow files are reached by reference only)
 	var ord []int
 	for i, f := range w.Files {
